@@ -8,6 +8,12 @@ pub struct Frag {
     asm: FragmentAssembler,
     seq_map: Vec<u64>,   // model sequence id (1-based) -> real sequence id
     payload_mode: String,
+    cache_section: bool,   // the header fragment also carries an atom cache section (bytes cache_bytes(seq))
+}
+
+/// the atom cache section that the header fragment of model sequence `seq` carries in "cache" runs
+pub fn cache_bytes(seq: u64) -> Vec<u8> {
+    vec![200 + seq as u8, 201, 202]
 }
 
 /// bytes of the symbolic piece <<seq, id>>
@@ -33,7 +39,7 @@ impl Replayable for Frag {
             FragmentAssembler::with_timeout(Duration::from_secs(3600))
         };
         let seq_map = cfg["seq_map"].as_array().map(|a| a.iter().map(|x| x.as_u64().unwrap()).collect()).unwrap_or(vec![1, 2, 3, 4]);
-        Frag { asm, seq_map, payload_mode: cfg["payload"].as_str().unwrap_or("pair").to_string() }
+        Frag { asm, seq_map, payload_mode: cfg["payload"].as_str().unwrap_or("pair").to_string(), cache_section: cfg["cache"].as_bool().unwrap_or(false) }
     }
     fn apply(&mut self, act: &Value) -> Value {
         let name = act["name"].as_str().unwrap_or("");
@@ -42,7 +48,7 @@ impl Replayable for Frag {
         let r = match name {
             "start" => {
                 let seq = self.seq_map[(mseq - 1) as usize];
-                self.asm.start_fragment(seq, id, None, piece(&self.payload_mode, mseq, id))
+                self.asm.start_fragment(seq, id, if self.cache_section { Some(cache_bytes(mseq)) } else { None }, piece(&self.payload_mode, mseq, id))
             }
             "cont" => {
                 let seq = self.seq_map[(mseq - 1) as usize];
